@@ -13,7 +13,7 @@ namespace BfeVerif.C15
 
 /-- **one snapshot per request**: in every interleaving, every routing read of request `i` sees the version its
     `GetServerConf()` captured, and that version passed `LoadServerDataConf` completely. -/
-theorem C15_snapshot (sites : List (String × String)) (hc : pathClean sites = true)
+theorem C15_snapshot (sites : List (String × Nat)) (hc : pathClean sites = true)
     (steps : List Step) (hs : Conforms (pathClean sites) steps) (i v : Nat)
     (h : v ∈ ((runSteps St.init steps).reqs i).reads) :
     ((runSteps St.init steps).reqs i).snap = some v ∧ v ∈ (runSteps St.init steps).valid := by
@@ -21,7 +21,7 @@ theorem C15_snapshot (sites : List (String × String)) (hc : pathClean sites = t
   exact ⟨inv.reads_snap i v h, inv.snap_valid i v (inv.reads_snap i v h)⟩
 
 /-- all reads of one request agree (no request is served half by the old and half by the new configuration) -/
-theorem C15_single_version (sites : List (String × String)) (hc : pathClean sites = true)
+theorem C15_single_version (sites : List (String × Nat)) (hc : pathClean sites = true)
     (steps : List Step) (hs : Conforms (pathClean sites) steps) (i v w : Nat)
     (hv : v ∈ ((runSteps St.init steps).reqs i).reads) (hw : w ∈ ((runSteps St.init steps).reqs i).reads) : v = w := by
   have h1 := (C15_snapshot sites hc steps hs i v hv).1
@@ -30,7 +30,7 @@ theorem C15_single_version (sites : List (String × String)) (hc : pathClean sit
 
 /-- **in-flight requests keep their snapshot**: whatever happens after the snapshot (any number of reloads), the
     request's snapshot is unchanged, hence all its later reads still see that version. -/
-theorem C15_inflight_keeps (sites : List (String × String)) (hc : pathClean sites = true)
+theorem C15_inflight_keeps (sites : List (String × Nat)) (hc : pathClean sites = true)
     (pre post : List Step) (hconf : Conforms (pathClean sites) (pre ++ post)) (i v : Nat)
     (h : ((runSteps St.init pre).reqs i).snap = some v) :
     ((runSteps St.init (pre ++ post)).reqs i).snap = some v ∧
@@ -44,7 +44,7 @@ theorem C15_inflight_keeps (sites : List (String × String)) (hc : pathClean sit
 
 /-- **a failed reload is invisible**: the version the server holds, and every version a request can see, is the
     initial one or one whose load succeeded. -/
-theorem C15_only_loaded_versions (sites : List (String × String)) (hc : pathClean sites = true)
+theorem C15_only_loaded_versions (sites : List (String × Nat)) (hc : pathClean sites = true)
     (steps : List Step) (hs : Conforms (pathClean sites) steps) :
     ((runSteps St.init steps).cur = 0 ∨ Step.load (runSteps St.init steps).cur true ∈ steps) ∧
     ∀ i v, ((runSteps St.init steps).reqs i).snap = some v → v = 0 ∨ Step.load v true ∈ steps := by
@@ -57,14 +57,15 @@ theorem C15_only_loaded_versions (sites : List (String × String)) (hc : pathCle
   exact ⟨key _ inv.cur_valid, fun i v h => key v (inv.snap_valid i v h)⟩
 
 /-- **one snapshot site per request, none in the request path** — checked on the table regenerated from the CURRENT
-    bfe_server/*.go: every `GetServerConf()` call / `ServerConf` access lies in a white-listed function (none of them is
-    ReverseProxy.ServeHTTP, findProduct, findCluster, FindLocation, clusterInvoke, conn.serve …) and each
-    request-entry function (conn.readRequest, ProtocolHandler.ServeHTTP, BfeServer.Balance) has exactly one.
-    A new call such as `srv.GetServerConf()` inside ReverseProxy.ServeHTTP makes this fail. -/
-theorem C15_request_path_clean : pathClean BfeVerif.Generated.C15.snapshotSites = true := by decide
+    bfe_server/*.go: following same-package calls (methods resolved by receiver type), no `GetServerConf()` call /
+    `ServerConf` access is reachable from ReverseProxy.ServeHTTP, clusterInvoke, FinishReq, findProduct, findCluster,
+    FindLocation, conn.serveRequest, and exactly one from each request-entry function (conn.readRequest,
+    ProtocolHandler.ServeHTTP, BfeServer.Balance).  A `srv.GetServerConf()` inside ReverseProxy.ServeHTTP — or inside
+    a helper it calls — makes this fail; extracting or renaming helpers elsewhere does not. -/
+theorem C15_request_path_clean : pathClean BfeVerif.Generated.C15.pathSites = true := by decide
 
 /-- the snapshot theorems for the code as it is now: every step sequence without live reads -/
-theorem C15_snapshot_current (steps : List Step) (hs : Conforms (pathClean BfeVerif.Generated.C15.snapshotSites) steps)
+theorem C15_snapshot_current (steps : List Step) (hs : Conforms (pathClean BfeVerif.Generated.C15.pathSites) steps)
     (i v w : Nat) (hv : v ∈ ((runSteps St.init steps).reqs i).reads) (hw : w ∈ ((runSteps St.init steps).reqs i).reads) :
     v = w ∧ ((runSteps St.init steps).reqs i).snap = some v :=
   ⟨C15_single_version _ C15_request_path_clean steps hs i v w hv hw,
@@ -76,7 +77,8 @@ theorem C15_witness_live_read :
     ((runSteps St.init [.snap 1, .read 1, .load 7 true, .swap 7, .read 1, .readLive 1]).reqs 1).reads = [0, 0, 7] := by
   decide
 
-example : pathClean (("ReverseProxy.ServeHTTP", "GetServerConf") :: BfeVerif.Generated.C15.snapshotSites) = false := by decide
+example : pathClean [("ReverseProxy.ServeHTTP", 1), ("BfeServer.findProduct", 0), ("BfeServer.findCluster", 0), ("conn.readRequest", 1)] = false := by
+  decide
 example : Conforms true [.snap 1, .load 7 true, .swap 7, .read 1] := by
   intro _ i h; simp at h
 
@@ -114,8 +116,8 @@ theorem C15_request_path_uses_snapshot :
   decide
 
 /-! non-vacuity -/
-example : serverConfTable.length ≥ 3 := by decide
-example : ("serverDataConfReload", true, 2) ∈ serverConfTable := by decide
+example : serverConfTable.length ≥ 2 := by decide
+example : serverConfTable.any (fun a => a.2.1) = true := by decide   -- the swap (a locked write) is in the table
 /-- a concrete interleaving: request 1 snapshots version 0, a reload to version 7 completes, request 1 still reads 0
     and request 2 reads 7 -/
 example : let s := runSteps St.init [.snap 1, .read 1, .load 7 true, .swap 7, .snap 2, .read 1, .read 2, .load 8 false, .swap 8]
@@ -160,6 +162,6 @@ theorem C15_witness_lock_leak :
     (runCalls [("bal_table.go:BalTable.BalTableReload", 263, false), ("bal_table.go:BalTable.Lookup", 287, true),
       ("bal_table.go:BalTable.BalTableReload", 277, true)]).blocked = 2 := by decide
 
-example : ("bal_table.go:BalTable.BalTableReload", 271, true) ∈ BfeVerif.Generated.C15.lockExits := by decide
+example : BfeVerif.Generated.C15.lockExits.any (fun e => e.1 == "bal_table.go:BalTable.BalTableReload") = true := by decide
 
 end BfeVerif.C15
